@@ -28,7 +28,7 @@ TIMEOUT = 1.0
 
 class CallbackMonitor(DeliveryMonitor):
     def __init__(self):
-        DeliveryMonitor.__init__(self)
+        DeliveryMonitor.__init__(self, flag_delivery=False)
         self.sends = {}  # tag -> (sender, data, retry, time)
 
     def on_callback(self, w, end, tag, success):
